@@ -4,15 +4,15 @@ import json, subprocess
 
 CLAIMED = {
  "C03": dict(cat="exploration", ref="DESIGN.md section 5 C03",
-   text="Seeded search over simulated operator sessions (hostile lines, replies, interrupts at instruction/slice/wait-state instants, snapshot holders, SimDisk loads, seeded quantum schedules) against the real Runtime; every API call runs under catch_unwind, a fuel budget and a bounded-slice / bounded-return-to-prompt invariant, a worker-process boundary catches aborts and a watchdog catches hangs without fuel ticks. A clean batch is evidence over the sampled sessions, not proof.",
+   text="Seeded search over simulated operator sessions (hostile lines, replies, interrupts at instruction/slice/wait-state instants, snapshot holders, SimDisk loads, Ctrl-C delivered twice before the next slice, seeded quantum schedules) against the real Runtime; every API call runs under catch_unwind, a fuel budget and a bounded-slice / bounded-return-to-prompt invariant, a worker-process boundary catches aborts and a watchdog catches hangs without fuel ticks. A clean batch is evidence over the sampled sessions, not proof.",
    note="Trusted: the terminal actor (stub of term::main_loop) respects the documented calling protocol; fuel ticks (hook H3) cover the hand-written loops; debug assertions and overflow checks are on as in the repository's test profile.",
    tech="deterministic simulation: seeded hostile sessions with interrupt/snapshot/overlong-input fault injection, crash+hang containment, canary"),
  "C13": dict(cat="fault_enumeration", ref="DESIGN.md section 5 C13",
-   text="For each seeded program the interrupt instant is enumerated over EVERY VM instruction of the run, every INPUT wait, every after-reply instant and every instant between two lines of a LIST statement (interrupt + optional inspection line + CONT), STOP and END are inserted at every top-level statement boundary, seven quantum schedules are compared event-for-event, and 1 in 400 evaluations is a GOSUB recursion 65 504+ frames deep with an INPUT at the bottom; oracle is the uninterrupted run of the same program. Complete over crash points per sampled program, sampled over programs.",
+   text="For each seeded program the interrupt instant is enumerated over EVERY VM instruction of the run, every INPUT wait, every after-reply instant and every instant between two lines of a LIST statement (interrupt, in a quarter of the programs delivered twice, + optional inspection line (PRINT, SAVE, LIST) + CONT), STOP and END are inserted at every top-level statement boundary, seven quantum schedules are compared event-for-event, and 1 in 400 evaluations is a GOSUB recursion 65 504+ frames deep with an INPUT at the bottom; oracle is the uninterrupted run of the same program. Complete over crash points per sampled program, sampled over programs.",
    note="Trusted: the normaliser that removes the ?BREAK report, the line break it forces and the prompts (terminal model + probe hook H4 to tell forced from printed line breaks). TRON, interrupts landing in the direct RUN line, and column-sensitive items after a mid-line break are not judged.",
    tech="deterministic simulation: exhaustive interrupt-point / STOP-END-placement enumeration per seeded program, self-differential against the uninterrupted run, seeded quantum schedules"),
  "C04": dict(cat="exploration", ref="DESIGN.md section 5 C04",
-   text="Seeded search over edit histories (insert/replace/delete/absent-delete, DELETE ranges, RENUM, NEW, SimDisk load, a host-initiated load arriving k instructions into a run, program lines that DELETE / NEW / LOAD / RUN \"file\" when executed, harmless direct statements) around runs stopped by an injected interrupt, STOP, END or an error inside loops and subroutines, ending in RUN / RUN n / CONT / RETURN / NEXT / a direct call of a user function; the oracle is a fresh twin Runtime fed get_listing() text with entropy aligned. Needs no semantic model, so it cannot raise model-induced alarms; a clean batch is evidence over the sampled histories.",
+   text="Seeded search over edit histories (insert/replace/delete/absent-delete, DELETE ranges, RENUM, NEW, SimDisk load, a host-initiated load arriving k instructions into a run, get_listing() snapshots handed back with set_listing, program lines that DELETE / NEW / LOAD / RUN \"file\" when executed, harmless direct statements) around runs stopped by an injected interrupt, STOP, END or an error inside loops and subroutines, ending in RUN / RUN n / CONT / RETURN / NEXT / a direct call of a user function; the oracle is a fresh twin Runtime fed get_listing() text with entropy aligned. Needs no semantic model, so it cannot raise model-induced alarms; a clean batch is evidence over the sampled histories.",
    note="Trusted: token-stream normaliser (prompt and forced line breaks removed). CONT/RETURN/NEXT without an edit since the last stop are legitimate and not judged; cases whose listing is not a fixed point (C05) are discarded.",
    tech="deterministic simulation: seeded edit histories with interrupt-stopped runs, fresh-twin differential oracle"),
  "C12": dict(cat="exploration", ref="DESIGN.md section 5 C12",
@@ -20,7 +20,7 @@ CLAIMED = {
    note="Trusted: token-stream normaliser; TRON is switched off at the end of the prefix because the manual lets tracing persist across RUN.",
    tech="deterministic simulation: seeded session prefixes with injected interrupts and failing statements, fresh-twin differential oracle"),
  "C15": dict(cat="exploration", ref="DESIGN.md section 5 C15",
-   text="Seeded edit / LIST / DELETE / NEW / LOAD / TAB-lookup histories over a small universe of line numbers, with Ctrl-C after the j-th listed line (also for a LIST statement stored in the program, followed by a direct LIST and CONT), LIST typed with the cursor mid-line, and get_listing() snapshots held across edits; an ordered-map model is compared with the real listing after every operation and with every LIST transcript; held snapshots must keep rendering what they rendered when taken.",
+   text="Seeded edit / LIST / DELETE / NEW / LOAD (sorted and hostile files: unsorted, repeated numbers, bare numbers, a direct statement that must refuse the whole load) / TAB-lookup histories over a small universe of line numbers, with Ctrl-C after the j-th listed line (also for a LIST statement stored in the program, followed by a direct LIST and CONT), LIST typed with the cursor mid-line, and get_listing() snapshots held across edits; an ordered-map model is compared with the real listing after every operation and with every LIST transcript; held snapshots must keep rendering what they rendered when taken.",
    note="Trusted: the 40-line map model. Whole-program ranges written explicitly for DELETE (0-65529 and equivalents) are not judged.",
    tech="deterministic simulation: seeded histories against an ordered-map reference model, LIST interrupted mid-way, live-snapshot fault"),
  "C01": dict(cat="exploration", ref="DESIGN.md section 5 C01, section 4.1, appendix B",
@@ -36,7 +36,7 @@ CLAIMED = {
    note="Trusted: RefBASIC. The DATA position right after an edit is a grey zone (READ there discards the case).",
    tech="deterministic simulation: seeded programs and edit/run histories against RefBASIC's data-pointer model"),
  "C10": dict(cat="exploration", ref="DESIGN.md section 5 C10",
-   text="Seeded programs over-sampling DEF FN (1-3 typed parameters named like program variables, bodies reading globals and calling earlier functions, calls inside PRINT lists, subscripts, FOR headers, IF predicates, ON selectors, arguments; planted wrong-arity and undefined calls) with sessions calling the functions from direct mode after globals changed, DEF in direct mode, CLEAR, DELETE of a line (functions are gone until their DEF executes again), CONT; functions whose names differ only in the type sigil and functions defined again mid-program with calls before and after on one line; judged by RefBASIC. 2% of the evaluations are runaway recursion programs that must end in ?OUT OF MEMORY with canary, intact listing and a fresh program running normally afterwards.",
+   text="Seeded programs over-sampling DEF FN (1-3 typed parameters named like program variables, bodies reading globals and calling earlier functions, calls inside PRINT lists, subscripts, FOR headers, IF predicates, ON selectors, arguments; planted wrong-arity and undefined calls) with sessions calling the functions from direct mode after globals changed, DEF in direct mode, CLEAR, DELETE of a line (functions are gone until their DEF executes again), CONT; functions whose names differ only in the type sigil and functions defined again mid-program with calls before and after on one line; judged by RefBASIC. DEF in direct mode is also typed behind other statements and inside IF..THEN / ELSE. 2% of the evaluations are runaway recursion programs that must end in ?OUT OF MEMORY with canary, intact listing and a fresh program running normally afterwards; 3% are refused calls (wrong argument count, undefined function) inside a FOR loop and/or a subroutine: the documented report, then NEXT / RETURN typed by hand must behave as after a STOP at the same place (twin run).",
    note="Trusted: RefBASIC (parameters in a local frame). Line attribution of errors raised inside function bodies, calls after edits and calls under TRON are grey zones.",
    tech="deterministic simulation: seeded programs and sessions against RefBASIC, pool-exhaustion fault (runaway recursion) with canary"),
  "C11": dict(cat="exploration", ref="DESIGN.md section 5 C11, section 4.3",
@@ -48,7 +48,7 @@ CLAIMED = {
    note="Trusted: RefBASIC's reply grammar; grey-zone spellings are never generated. Interrupts in each protocol state are enumerated by C13.",
    tech="deterministic simulation: request/retry protocol between VM and simulated terminal with hostile replies, reference reply model"),
  "C20": dict(cat="exploration", ref="DESIGN.md section 5 C20",
-   text="Seeded twin comparison: (a) one generated program rendered under two layouts (monotone renumbering with seeded gaps, inserted REM / ':'-only lines, multi-statement lines split into consecutive lines, unreachable lines appended) is run on two real runtimes under different slice schedules and the transcripts and final variables must agree once reported line numbers are mapped back to the originating statement; (b) a direct statement list typed into a fresh runtime is compared with the same list typed with small / large / compile-error-carrying resident programs after other direct lines (failed, looping, syntactically wrong), and with the one-line program `10 <list>` + RUN.",
+   text="Seeded twin comparison: (a) one generated program rendered under two layouts (monotone renumbering with seeded gaps, inserted REM / ':'-only lines, multi-statement lines split into consecutive lines, unreachable lines appended) is run on two real runtimes under different slice schedules and the transcripts and final variables must agree once reported line numbers are mapped back to the originating statement; (b) a direct statement list typed into a fresh runtime is compared with the same list typed with small / large / compile-error-carrying resident programs after other direct lines (failed, looping, syntactically wrong), and with the one-line program `10 <list>` + RUN; in 30% of the resident-program comparisons the list is interrupted after k instructions on both runtimes and the break reports must be the same text.",
    note="Trusted: the layout transformations preserve meaning (targets are AST indices, re-rendered); TRON excluded; DATA lines never moved; direct lists carry no line references and no READ.",
    tech="deterministic simulation: seeded layout configurations and resident-program / direct-line histories, twin-runtime differential oracle under different slice schedules"),
  "C14": dict(cat="exploration", ref="DESIGN.md section 5 C14",
@@ -56,7 +56,7 @@ CLAIMED = {
    note="Trusted: the AST renderer and the 25-line model renumbering. A refused triple that the manual makes valid is counted, not reported (the property allows failing).",
    tech="deterministic simulation: seeded RENUM transactions with failing argument triples and live-snapshot fault, model renumbering + twin-runtime behavioural equivalence"),
  "C19": dict(cat="exploration", ref="DESIGN.md section 5 C19",
-   text="Seeded sessions: a clean generated program is typed, optionally run to its end or to an injected Ctrl-C (leaving FOR/GOSUB frames, a CONT point and defined user functions), then damaged by typed edits (dangling reference in each of nine referencing forms, stray WHILE / WEND, token-level syntax damage, on new lines or in front of existing lines, with ASCII and multi-byte statements before the fault), then with tracing on one of 13 doors into the program is tried (RUN, RUN n, GOTO n, GOSUB n, ON..GOTO, ON..GOSUB, IF..THEN n, FOR..GOSUB..NEXT, CONT, RETURN, NEXT, a direct call of a user function, load-and-run from the SimDisk), optionally typed behind `PRINT \"X\";:` and optionally followed by CONT; 6% of the programs damage themselves (their first line DELETEs the target of a later GOTO). Invariants: every diagnostic names a listed line and a character range inside its listed text, UNDEFINED LINE ranges spell exactly a missing number, WHILE/WEND ranges the keyword, LIST underlines exactly the reported ranges, every planted fault is reported; through the door no trace token, output, prompt or variable change; harmless direct statements still work.",
+   text="Seeded sessions: a clean generated program is typed, optionally run to its end or to an injected Ctrl-C (leaving FOR/GOSUB frames, a CONT point and defined user functions), then damaged by typed edits (dangling reference in each of nine referencing forms, stray WHILE / WEND, token-level syntax damage, on new lines or in front of existing lines, with ASCII and multi-byte statements before the fault), then with tracing on one of 13 doors into the program is tried (RUN, RUN n, GOTO n, GOSUB n, ON..GOTO, ON..GOSUB, IF..THEN n, FOR..GOSUB..NEXT, CONT, RETURN, NEXT, a direct call of a user function, load-and-run from the SimDisk), optionally typed behind `PRINT \"X\";:` and optionally followed by CONT; 6% of the programs damage themselves (their first line DELETEs the target of a later GOTO). Invariants: every diagnostic names a listed line and a character range inside its listed text, UNDEFINED LINE ranges spell exactly a missing number, WHILE/WEND ranges the keyword, LIST underlines exactly the reported ranges, every planted fault is reported; through the door no trace token, output, prompt or variable change; harmless direct statements still work, also after a direct line that was itself refused at compile time; a failing direct statement typed under TRON is reported once without a line number and traces nothing, an interrupted direct loop breaks without a line number.",
    note="Trusted: the damage placement (faults only added, never by modifying existing statements, so the planted set is the expected set). An empty range at the end of a line counts as inside it. The value of a direct FN call is not judged here.",
    tech="deterministic simulation: seeded edit/run/stop histories with injected interrupts, every door into a damaged program under seeded slice schedules, diagnostic-range invariants against the listing snapshot"),
  "C18": dict(cat="exploration", ref="DESIGN.md section 5 C18",
